@@ -25,6 +25,9 @@ import (
 //	out   err          `out oN` (exit 0, prints oN\n)   `err eN` (exit 1, prints nothing on stdout)
 //	f0 f1 f7           murex functions `fK tN`: print tN\n, return K
 //	g0 g1 g7           murex functions `gK tN`: copy stdin to stdout, print tN\n, return K   (method stages only)
+//	s0                 murex function: writes tN\n to STDERR only, returns 0
+//	b0                 murex function: writes tN\n to stdout and to stderr, returns 0
+//	gs0                murex function: copies stdin to stdout, writes tN\n to stderr, returns 0 (method stages only)
 type rmStage struct {
 	K string `json:"k"`
 	N int    `json:"n"`
@@ -57,6 +60,9 @@ function f7 { out $1; return 7 }
 function g0 { <stdin>; out $1; return 0 }
 function g1 { <stdin>; out $1; return 1 }
 function g7 { <stdin>; out $1; return 7 }
+function s0 { err $1; return 0 }
+function b0 { out $1; err $1; return 0 }
+function gs0 { <stdin>; err $1; return 0 }
 `
 
 var rmOnce sync.Once
@@ -72,7 +78,7 @@ func rmInit() {
 
 func rmExit(k string) int {
 	switch k {
-	case "true", "out", "f0", "g0":
+	case "true", "out", "f0", "g0", "s0", "b0", "gs0":
 		return 0
 	case "false", "err", "f1", "g1":
 		return 1
@@ -137,6 +143,14 @@ func rmSource(c rmCase) string {
 		return "try { " + body + " }"
 	case "trypipe":
 		return "trypipe { " + body + " }"
+	case "tryerr":
+		return "tryerr { " + body + " }"
+	case "trypipeerr":
+		return "trypipeerr { " + body + " }"
+	case "fntryerr":
+		return "function rmw {\nrunmode tryerr function\n" + body + "\n}\nrmw"
+	case "fntrypipeerr":
+		return "function rmw {\nrunmode trypipeerr function\n" + body + "\n}\nrmw"
 	case "fntry":
 		return "function rmw {\nrunmode try function\n" + body + "\n}\nrmw"
 	case "fntrypipe":
@@ -154,6 +168,14 @@ func rmModeCoq(m string) string {
 		return "RmBlockTry"
 	case "trypipe":
 		return "RmBlockTryPipe"
+	case "tryerr":
+		return "RmBlockTryErr"
+	case "trypipeerr":
+		return "RmBlockTryPipeErr"
+	case "fntryerr":
+		return "RmFunctionTryErr"
+	case "fntrypipeerr":
+		return "RmFunctionTryPipeErr"
 	case "fntry":
 		return "RmFunctionTry"
 	case "fntrypipe":
@@ -177,16 +199,29 @@ func rmTok(c rmCase, pi, si int) string {
 		return s.K
 	case "out":
 		return fmt.Sprintf("o%d\n", s.N)
-	case "err":
+	case "err", "s0":
+		return ""
+	case "gs0":
 		return ""
 	}
 	return fmt.Sprintf("t%d\n", s.N)
 }
 
+// rmErrTok: what the command writes to stderr.
+func rmErrTok(s rmStage) string {
+	switch s.K {
+	case "err":
+		return fmt.Sprintf("e%d\n", s.N)
+	case "s0", "b0", "gs0":
+		return fmt.Sprintf("t%d\n", s.N)
+	}
+	return ""
+}
+
 func rmCmdCoq(c rmCase, pi, si int) string {
 	s := c.P[pi].S[si]
 	return coqlit.Record("c_exit", coqlit.Z(int64(rmExit(s.K))), "c_tok", coqlit.Bytes(rmTok(c, pi, si)),
-		"c_fwd", coqlit.Bool(rmFwd(s.K)))
+		"c_fwd", coqlit.Bool(rmFwd(s.K)), "c_err", coqlit.Bytes(rmErrTok(s)))
 }
 
 func rmProgCoq(c rmCase) string {
@@ -270,6 +305,10 @@ func rmPick(rng *rand.Rand, class byte) string {
 		return []string{"true", "out", "f0"}[rng.Intn(3)]
 	case 'x':
 		return []string{"false", "err", "f1"}[rng.Intn(3)]
+	case 's':
+		return "s0"
+	case 'b':
+		return "b0"
 	}
 	return "f7"
 }
@@ -280,8 +319,50 @@ func rmPickStage(rng *rand.Rand, class byte) string {
 		return []string{"g0", "g0", "out", "f0"}[rng.Intn(4)]
 	case 'x':
 		return []string{"g1", "g1", "f1", "false"}[rng.Intn(4)]
+	case 's':
+		return "gs0"
+	case 'O': // forwarding stages only (tryerr: the head must have finished writing)
+		return "g0"
+	case 'X':
+		return "g1"
 	}
 	return []string{"g7", "f7"}[rng.Intn(2)]
+}
+
+// rmRandomErr: a random chain for the *err modes: commands that write to stderr
+// are frequent; stages after the first always read their stdin to the end, so
+// that under tryerr every earlier stage has finished writing when the last one
+// is checked.
+func rmRandomErr(rng *rand.Rand, mode string, nproc int) rmCase {
+	heads := []string{"out", "out", "s0", "s0", "b0", "err", "true", "false", "f0", "f1", "f7"}
+	stages := []string{"g0", "g0", "g1", "gs0", "gs0", "g7"}
+	c := rmCase{Mode: mode}
+	left := nproc
+	for left > 0 {
+		p := rmPipe{J: rmJoiners[rng.Intn(3)]}
+		if p.J == ";" && rng.Intn(3) == 0 {
+			p.NL = true
+		}
+		n := 1
+		if rng.Intn(10) < 4 {
+			n = 2 + rng.Intn(2)
+		}
+		if n > left {
+			n = left
+		}
+		for k := 0; k < n; k++ {
+			if k == 0 {
+				p.S = append(p.S, rmStage{K: heads[rng.Intn(len(heads))]})
+			} else {
+				p.S = append(p.S, rmStage{K: stages[rng.Intn(len(stages))], A: rng.Intn(5) == 0})
+			}
+		}
+		left -= n
+		c.P = append(c.P, p)
+	}
+	c.P[0].J, c.P[0].NL = ";", false
+	rmNumber(&c)
+	return c
 }
 
 // rmNumber gives every stage its position as token number.
